@@ -193,9 +193,59 @@ def run_case(case):
     return run_wfault(case, s, h)
 
 
+def run_carryon(case, s, h):
+    """One write() call fails with NOTHING written (no space, interrupted) exactly at the start of a record frame; the caller gets the
+    error for that record and carries on with the same writer. On disk every frame is complete: the records whose write() returned
+    are all there, in order, and nothing else."""
+    from flow.record import RecordStreamWriter
+    from flow.record.adapter.stream import StreamWriter
+
+    dev = FaultyFile(case["i"], 0, "raise")
+    records = [recs.build_record(r) for r in s["specs"]]
+    w = RecordStreamWriter(dev) if case["writer"] == "low" else StreamWriter(dev)
+    acked = []
+    failed = []
+    for idx, r in enumerate(records):
+        try:
+            w.write(r)
+            acked.append(idx)
+        except OSError:
+            failed.append(idx)
+    try:
+        w.flush()
+    except OSError:
+        pass
+    image = dev.getvalue()
+    try:
+        w.fp = None
+        if hasattr(w, "stream"):
+            w.stream = None
+    except Exception:  # noqa: BLE001
+        pass
+    viol = []
+    outs = []
+    want = [s["obs"][i] for i in acked]
+    label = "wfault.%s.raise-then-carry-on" % case["writer"]
+    if len(failed) != 1:
+        outs.append("fault-not-on-a-record-write")
+    else:
+        for pk in ("lowlevel", "fileobj", "path"):
+            got, exc, refused = read_image(image, pk, "")
+            ogot = obs_list(got)
+            if ogot != want:
+                d = recs.list_diff(want, ogot)
+                viol.append(("C04:%s:%s:%s" % (label, pk, "acknowledged-records-unreadable" if len(ogot) < len(want) else "altered-or-unwritten"), case,
+                             {"acknowledged": len(want), "read": len(ogot), "failed_record": failed[0], "exc": repr(exc)[:160], "first_diff": list(d[:3]) if d else None}))
+            outs.append("carryon:%s" % ("ok" if ogot == want else "bad"))
+    return {"ev": 3, "h": h, "nt": True, "out": outs, "viol": viol, "count": {"write_faults_injected": 1}}
+
+
 def run_wfault(case, s, h):
     from flow.record import RecordStreamWriter
     from flow.record.adapter.stream import StreamWriter
+
+    if case.get("after") == "carry-on":
+        return run_carryon(case, s, h)
 
     dev = (DuckFile if case.get("dev") == "duck" else FaultyFile)(case["i"], case["k"], case["mode"])
     records = [recs.build_record(r) for r in s["specs"]]
@@ -349,6 +399,21 @@ def cases(tier):
                                 # gzip module); what that leaves on the device is not the library's doing
                                 continue
                             yield {"kind": "wfault", "stream": name, "writer": writer, "i": i, "k": k, "mode": mode, "after": after}
+            if writer != "gzip" and name != "empty":
+                # a failed call that took nothing, at the first call of every RECORD frame; the caller carries on
+                st = build_stream(name)
+                starts = set()
+                prev = 0
+                for end, isrec in st["frames"]:
+                    if isrec:
+                        starts.add(prev)
+                    prev = end
+                off = 0
+                for i, ln in enumerate(calls):
+                    # (the call that CONTAINS the first byte of a record frame: a writer may hand several frames to one call)
+                    if any(off <= st_ < off + ln for st_ in starts):
+                        yield {"kind": "wfault", "stream": name, "writer": writer, "i": i, "k": 0, "mode": "raise", "after": "carry-on"}
+                    off += ln
             if writer != "gzip":
                 if writer == "low":  # (the adapter takes io objects only)
                     yield {"kind": "wfault", "stream": name, "writer": writer, "i": 0, "k": 0, "mode": "none", "after": "close", "dev": "duck"}
